@@ -94,6 +94,7 @@ def tuple_cases():
 FAITH_HEADER = """pragma circom 2.1.0;
 template Split() { signal input in; signal output lo; signal output mid; signal output hi; lo <== in * in; mid <== in + 1; hi <== in + 2; }
 template Two() { signal input a; signal input b; signal output o; signal output r; o <== a * b; r <== a - b; }
+template One() { signal input a; signal output o; o <== a * a; }
 template Sugar() {
   signal input x; signal input y; signal output p; signal output q;
 %s
@@ -135,6 +136,26 @@ def faithful_cases():
     c.append(("anon-named-mixed-ops-swapped", "(p, q) <== Two()(b <== y, a <-- x);", exp3))
     exp4 = "component t = Two(); t.a <== x; t.b <-- y * y; p <== t.o; q <== t.r;"
     c.append(("anon-named-mixed-ops-swapped-2", "(p, q) <== Two()(b <-- y * y, a <== x);", exp4))
+    # a single named input keeps its name and its operator
+    c.append(("anon-single-named-signal", "p <== One()(a <-- x); q <== x;", "component t = One(); t.a <-- x; p <== t.o; q <== x;"))
+    c.append(("anon-single-named-constraint", "p <== One()(a <== x); q <== x;", "component t = One(); t.a <== x; p <== t.o; q <== x;"))
+    c.append(("anon-single-named-signal-nonquadratic", "p <== One()(a <-- x * x * y); q <== x;", "component t = One(); t.a <-- x * x * y; p <== t.o; q <== x;"))
+    # anonymous components inside loops: an array of components, one per iteration
+    tail = " p <== s[0]; q <== s[1];"
+    c.append(("anon-in-for", "signal s[2]; for (var i = 0; i < 2; i++) { s[i] <== One()(x + i); }" + tail,
+              "signal s[2]; component t[2]; for (var i = 0; i < 2; i++) { t[i] = One(); t[i].a <== x + i; s[i] <== t[i].o; }" + tail))
+    c.append(("anon-in-for-tuple", "signal s[2]; for (var i = 0; i < 2; i++) { (s[i], _) <== Two()(x, y); }" + tail,
+              "signal s[2]; component t[2]; for (var i = 0; i < 2; i++) { t[i] = Two(); t[i].a <== x; t[i].b <== y; s[i] <== t[i].o; }" + tail))
+    c.append(("anon-in-for-named-signal", "signal s[2]; for (var i = 0; i < 2; i++) { s[i] <== One()(a <-- x * x * y); }" + tail,
+              "signal s[2]; component t[2]; for (var i = 0; i < 2; i++) { t[i] = One(); t[i].a <-- x * x * y; s[i] <== t[i].o; }" + tail))
+    c.append(("anon-in-while", "signal s[2]; var k = 0; while (k < 2) { s[k] <== One()(x + k); k++; }" + tail,
+              "signal s[2]; component t[2]; var k = 0; while (k < 2) { t[k] = One(); t[k].a <== x + k; s[k] <== t[k].o; k++; }" + tail))
+    c.append(("anon-in-nested-for", "signal s[2][2]; for (var i = 0; i < 2; i++) { for (var j = 0; j < 2; j++) { s[i][j] <== One()(x + i + j); } } p <== s[0][0]; q <== s[1][1];",
+              "signal s[2][2]; component t[2][2]; for (var i = 0; i < 2; i++) { for (var j = 0; j < 2; j++) { t[i][j] = One(); t[i][j].a <== x + i + j; s[i][j] <== t[i][j].o; } } p <== s[0][0]; q <== s[1][1];"))
+    c.append(("anon-in-for-and-after", "signal s[2]; for (var i = 0; i < 2; i++) { s[i] <== One()(x + i); } p <== One()(s[0]); q <== s[1];",
+              "signal s[2]; component t[2]; for (var i = 0; i < 2; i++) { t[i] = One(); t[i].a <== x + i; s[i] <== t[i].o; } component u = One(); u.a <== s[0]; p <== u.o; q <== s[1];"))
+    c.append(("anon-in-if-in-for", "signal s[2]; for (var i = 0; i < 2; i++) { if (i == 0) { s[i] <== One()(x); } else { s[i] <== One()(y); } }" + tail,
+              "signal s[2]; component t[2]; component u[2]; for (var i = 0; i < 2; i++) { if (i == 0) { t[i] = One(); t[i].a <== x; s[i] <== t[i].o; } else { u[i] = One(); u[i].a <== y; s[i] <== u[i].o; } }" + tail))
     c.append(("anon-one-output-skipped", "(p, _) <== Two()(x, y); q <== x;", "component t = Two(); t.a <== x; t.b <== y; p <== t.o; q <== x;"))
     return c
 
@@ -154,7 +175,7 @@ def findings_of(out):
         elif cur is not None:
             m = re.match(r"^\s*│\s+[\^-]+ (.+)$", l)   # a label line: only carets / dashes before the text
             if m:
-                cur += " | " + re.sub(r"`\w+(\[[^\]]*\])?\.(\w+)", r"`<c>.\2", m.group(1).strip())
+                cur += " | " + re.sub(r"`\w+((?:\[[^\]]*\])*)\.(\w+)", r"`<c>.\2", m.group(1).strip())
             elif l.startswith("circomspect:"):
                 f.append(cur)
                 cur = None
@@ -217,7 +238,7 @@ def suite_tuples(exe, tier, seed):
         shutil.rmtree(d, ignore_errors=True)
     return {"unit": "e2e-tuples", "evaluations": evals, "distinct_nontrivial": nontrivial, "exhaustive": True,
             "rule": "the real CLI (a) on a sugared statement and on its hand-written expansion: same exit status and same displayed findings; (b) on one generated file per (definition kind, syntactic position, tuple shape): the tool must terminate with exit status 0 or 1 and must not panic; every case is distinct and non-trivial (contains a tuple)",
-            "bound": "faithfulness: 16 sugared statements (tuple destinations with `_` in every position, tuple-to-tuple, anonymous components with positional / named / swapped named inputs) against their hand-written expansions, findings compared as multisets without positions; completeness: 3 tuple shapes (flat, with a signal, nested) x 19 positions (assignment sides, conditions, array indices, assert/log/return/call arguments, operands, initialisers, loop bodies) in templates and functions, plus 8 well-formed / malformed tuple statements",
+            "bound": "faithfulness: 26 sugared statements (tuple destinations with `_` in every position, tuple-to-tuple, anonymous components with positional / named / swapped / single named inputs, anonymous components inside for / while / nested loops and branches inside loops) against their hand-written expansions, findings compared as multisets without positions; completeness: 3 tuple shapes (flat, with a signal, nested) x 19 positions (assignment sides, conditions, array indices, assert/log/return/call arguments, operands, initialisers, loop bodies) in templates and functions, plus 8 well-formed / malformed tuple statements",
             "samples": samples, "violations": viol}
 
 
@@ -1177,6 +1198,7 @@ def sigassign_program(rng, n_stmts):
     expected maps a line number to (number of `<--` findings expected there, set of constraint lines or None)"""
     lines = ["pragma circom 2.1.0;", "pragma custom_templates;",
              "template Sub() { signal input a; signal input b; signal output c; c <== a * b; }",
+             "template Uno() { signal input a; signal output c; c <== a * a; }",
              "function fn(x) { var y = x; y = y + 1; return y; }"]
     body, decl = [], []
     expected = {}          # line -> [count, related-lines-or-None]
@@ -1189,7 +1211,7 @@ def sigassign_program(rng, n_stmts):
         body.append(text)
         return len(body) - 1
     for _ in range(n_stmts):
-        k = rng.randrange(18)
+        k = rng.randrange(21)
         if k == 0:      # scalar, not quadratic, 0..3 constraints mentioning it (and a decoy with a longer name)
             sname = fresh("s")
             decl.append(f"signal {sname}; signal {sname}x;")
@@ -1303,6 +1325,18 @@ def sigassign_program(rng, n_stmts):
             s1, s2 = fresh("p"), fresh("p")
             decl.append(f"signal {s1}; signal {s2};")
             pending.append((emit(f"  ({s1}, {s2}) <-- (in \\ 2, in2 \\ 3);"), 2, None))
+        elif k == 18:   # anonymous component with a single named `<--` input
+            sname = fresh("u")
+            decl.append(f"signal {sname};")
+            pending.append((emit(f"  {sname} <== Uno()(a <-- in \\ 2);"), 1, None))
+        elif k == 19:   # anonymous component inside a loop, single named `<--` input: one statement, one finding
+            sname = fresh("w")
+            decl.append(f"signal {sname}[2];")
+            pending.append((emit(f"  for (var i = 0; i < 2; i++) {{ {sname}[i] <== Uno()(a <-- in \\ (i + 2)); }}"), 1, None))
+        elif k == 20:   # anonymous component inside a loop, two named inputs, one of them `<--`
+            sname = fresh("w")
+            decl.append(f"signal {sname}[2];")
+            pending.append((emit(f"  for (var i = 0; i < 2; i++) {{ {sname}[i] <== Sub()(b <== in2, a <-- in \\ (i + 2)); }}"), 1, None))
         else:           # anonymous component with a named `<--` input: one finding, at the call
             sname = fresh("u")
             decl.append(f"signal {sname};")
@@ -1564,12 +1598,19 @@ def suite_scopes(exe, tier, seed):
                     add("use:wrong-declaration", {"program": pi, "line": ln, "source": src}, f"program {pi}, line {ln} `{text}`: the name refers to the declaration on line {dl}, which gives it exactly this value, but the tool says the comparison is always false (it resolved the name to another declaration)")
                 elif kind == "unknown" and c in ("true", "false"):
                     add("use:wrong-declaration", {"program": pi, "line": ln, "source": src}, f"program {pi}, line {ln} `{text}`: the name refers to the parameter or loop variable declared on line {dl}, whose value is not known, but the tool says the comparison is always {c}")
+            # the counter of a `for` is the variable its condition and its step refer to, whatever the body declares: the step is
+            # a live assignment and the condition is not constant, so no dead-value or constant-condition finding stands on a header
+            for (code, ln, text) in coded_findings(out):
+                if code in ("CS0006", "CS0008", "CS0009") and ln is not None and srcl[ln - 1].lstrip().startswith("for ("):
+                    nontrivial += 1
+                    first = next((l.strip() for l in text.split("\n")[1:] if "^" in l), "")
+                    add("for-header", {"program": pi, "line": ln, "source": src}, f"program {pi}, line {ln} `{srcl[ln - 1].strip()}`: finding {code} on the header of a `for` ({first[:120]}): the condition and the step of a `for` refer to its own counter, which the condition reads and the step updates")
             if len(samples) < 4 and pi % 7 == 0:
                 samples.append({"program": pi, "shadowing": {str(k): v for k, v in sorted(got_sh.items())}, "claims": {str(k): v for k, v in sorted(claims.items())}})
     finally:
         shutil.rmtree(d, ignore_errors=True)
     return {"unit": "e2e-scopes", "evaluations": evals, "distinct_nontrivial": nontrivial, "exhaustive": False,
-            "rule": "the real CLI on generated functions nesting if / else / while / for blocks up to depth 3, declaring variables named x, y, x_0, x_1, y_0, p (p is also a parameter; x_0 is what a renamed x looks like) with one constant each and never assigning them again: a shadowing warning (CS0001) stands at exactly the declarations that redeclare a name visible there (block scoping, parameters outermost, a `for` opens a scope for its variable), once, with the innermost visible declaration as related location; and where a use `if (NAME == K)` compares with the constant of the declaration the name refers to, the tool never says `always false` (nor anything about a parameter or loop variable); and, through the real parser + lifting + SSA conversion (tools/replay/parser ssa-reads), every read of a local variable names a parameter or a variable that some statement writes with the same (name, suffix, version), and no versioned variable is written twice",
+            "rule": "the real CLI on generated functions nesting if / else / while / for blocks up to depth 3, declaring variables named x, y, x_0, x_1, y_0, p (p is also a parameter; x_0 is what a renamed x looks like) with one constant each and never assigning them again: a shadowing warning (CS0001) stands at exactly the declarations that redeclare a name visible there (block scoping, parameters outermost, a `for` opens a scope for its variable), once, with the innermost visible declaration as related location; and where a use `if (NAME == K)` compares with the constant of the declaration the name refers to, the tool never says `always false` (nor anything about a parameter or loop variable); and, through the real parser + lifting + SSA conversion (tools/replay/parser ssa-reads), every read of a local variable names a parameter or a variable that some statement writes with the same (name, suffix, version), and no versioned variable is written twice; no dead-value or constant-condition finding (CS0006, CS0008, CS0009) stands on the header of a `for` (its condition and step refer to its own counter, also when the body redeclares the name)",
             "bound": f"{n_prog} generated functions of 4..15 actions (seeded); 5 parameter lists x {{function, template}} for the collision report", "samples": samples, "violations": viol}
 
 
